@@ -57,14 +57,14 @@ NextId(pid) ==
 \* topic strings of a SUBSCRIBE packet are logged as level sequences; commands carry plain strings: the harness logs both as given,
 \* so a subscription is compared as [f |-> <levels or string>, q]
 ApiCall(a, m, arg) ==
-  /\ calls' = calls \cup {[a |-> a, m |-> m, arg |-> arg, enq |-> FALSE]}
+  /\ calls' = calls \cup {[a |-> a, m |-> m, arg |-> arg, enq |-> FALSE, fin |-> FALSE, res |-> FALSE]}
   /\ UNCHANGED <<started, cmds, subsS, phase, resubId, cfg, obs, acked>>
 
 \* silent: the call got the service's mutex and put its command into the queue (some instant between call and return;
 \* Stop holds the same mutex, so a command is queued either before Stop began or after it returned)
 Enqueue(c) ==
   /\ c \in calls /\ ~c.enq /\ c.m \in {"publish", "subscribe", "unsubscribe"}
-  /\ ~\E d \in calls : d.m = "stop" /\ d.enq
+  /\ ~\E d \in calls : d.m = "stop" /\ d.enq /\ ~d.fin
   /\ calls' = (calls \ {c}) \cup {[c EXCEPT !.enq = TRUE]}
   /\ cmds' = Append(cmds, [a |-> c.a, kind |-> c.m, arg |-> c.arg, st |-> "queued", pid |-> 0, fut |-> "pending", name |-> ""])
   /\ UNCHANGED <<started, subsS, phase, resubId, cfg, obs, acked>>
@@ -77,29 +77,45 @@ GiveUp(c) ==
   /\ cmds' = Append(cmds, [a |-> c.a, kind |-> c.m, arg |-> c.arg, st |-> "done", pid |-> 0, fut |-> "cancelled", name |-> ""])
   /\ UNCHANGED <<started, subsS, phase, resubId, cfg, obs, acked>>
 
-\* silent: Stop acquired the mutex (from here to its return no command can be queued)
+\* silent: Stop acquired the mutex (from here until it is done no command can be queued)
 StopBegins(c) ==
   /\ c \in calls /\ c.m = "stop" /\ ~c.enq
+  /\ ~\E d \in calls : d.m = "stop" /\ d.enq /\ ~d.fin
   /\ calls' = (calls \ {c}) \cup {[c EXCEPT !.enq = TRUE]}
   /\ UNCHANGED <<started, cmds, subsS, phase, resubId, cfg, obs, acked>>
+
+\* silent: Stop is done (supervisor ended, futures cleared if asked to) and releases the mutex; its return is logged some time later -
+\* calls that were waiting for the mutex may be logged as returning before it
+StopEnds(c) ==
+  /\ c \in calls /\ c.m = "stop" /\ c.enq /\ ~c.fin
+  /\ calls' = (calls \ {c}) \cup {[c EXCEPT !.fin = TRUE, !.res = started]}
+  /\ started' = FALSE
+  /\ phase' = "idle"
+  \* Stop(true): everything still pending is cancelled, also what is still queued (the queue is drained)
+  /\ cmds' = IF c.arg /\ started
+             THEN [i \in 1..Len(cmds) |-> IF cmds[i].fut = "pending" THEN [cmds[i] EXCEPT !.fut = "cancelled", !.st = "done"] ELSE cmds[i]]
+             ELSE cmds
+  /\ UNCHANGED <<subsS, resubId, cfg, obs, acked>>
+
+\* silent: Start takes effect (its return is logged some time later)
+StartEffect(c) ==
+  /\ c \in calls /\ c.m = "start" /\ ~c.fin
+  /\ ~\E d \in calls : d.m = "stop" /\ d.enq /\ ~d.fin
+  /\ calls' = (calls \ {c}) \cup {[c EXCEPT !.fin = TRUE, !.res = ~started]}
+  /\ started' = TRUE
+  /\ phase' = IF started THEN phase ELSE "idle"
+  /\ UNCHANGED <<cmds, subsS, resubId, cfg, obs, acked>>
 
 ApiRet(a, m, err, f) ==
   /\ \E c \in calls : c.a = a /\ c.m = m /\ calls' = calls \ {c} /\
        CASE m = "start" ->
-              /\ G("C17", "Restartable", (err = "") = ~started)
-              /\ started' = TRUE
-              /\ phase' = IF started THEN phase ELSE "idle"
-              /\ UNCHANGED <<cmds, subsS, resubId>>
+              /\ c.fin
+              /\ G("C17", "Restartable", (err = "") = c.res)
+              /\ UNCHANGED <<started, phase, cmds, subsS, resubId>>
          [] m = "stop" ->
-              /\ c.enq
-              /\ (err = "") = started
-              /\ started' = FALSE
-              /\ phase' = "idle"
-              \* Stop(true): everything still pending is cancelled, also what is still queued (the queue is drained)
-              /\ cmds' = IF c.arg /\ started
-                         THEN [i \in 1..Len(cmds) |-> IF cmds[i].fut = "pending" THEN [cmds[i] EXCEPT !.fut = "cancelled", !.st = "done"] ELSE cmds[i]]
-                         ELSE cmds
-              /\ UNCHANGED <<subsS, resubId>>
+              /\ c.fin
+              /\ (err = "") = c.res
+              /\ UNCHANGED <<started, phase, cmds, subsS, resubId>>
          [] OTHER ->
               /\ c.enq
               /\ \E i \in 1..Len(cmds) : cmds[i].a = a /\
